@@ -1,8 +1,8 @@
 (** C11 obligation: element data as the REPAIRED tostring_unclosed_elements writes it (saxutils.escape, fixes/C11-3) contains no raw '<' and no '&' that
     does not start an entity -- for EVERY text -- and is the very datum the closed form writes. *)
-From OfxV Require Import Base.Prelude Base.Digits Gen.ScalarsGen Model.PyDecimal Model.Scalars Model.ScalarsLex Proofs.ScalarsText Proofs.PyDecimalProofs Proofs.ScalarsProofs Proofs.ScalarsLexProofs.
+From OfxV Require Import Base.Prelude Base.Digits Gen.ScalarsGen Model.PyDecimal Model.Scalars Model.ScalarsLex Proofs.ScalarsText Proofs.PyDecimalProofs Proofs.ScalarsProofs Proofs.ScalarsLexProofs Proofs.ScalarsThms.
 Local Open Scope N_scope.
 
 Theorem unclosed_wire_data_ok : forall s, wire_data_ok (wire_datum WUnclosed s) = true /\ wire_datum WUnclosed s = wire_datum WClosed s.
-Proof. intro s. split; [apply wire_datum_ok|rewrite !wire_datum_flat; reflexivity]. Qed.
+Proof. exact unclosed_wire_data_ok_l. Qed.
 Print Assumptions unclosed_wire_data_ok.
